@@ -33,7 +33,23 @@ def ascii_ok(s: str) -> bool:
     return all(32 <= ord(c) < 127 for c in s)
 
 
+def t_oe(e: ast.expr | None) -> list:
+    return ["O"] if e is None else ["O", t_expr(e)]
+
+
 def t_expr(e: ast.expr) -> list:
+    if isinstance(e, ast.Set):
+        return ["ESet", P(e), [t_expr(x) for x in e.elts]]
+    if isinstance(e, ast.Dict):
+        return ["EDict", P(e), [["ditem", t_oe(k), t_expr(v)] for k, v in zip(e.keys, e.values)]]
+    if isinstance(e, ast.Subscript):
+        return ["ESubscript", P(e), t_expr(e.value), t_expr(e.slice)]
+    if isinstance(e, ast.Slice):
+        return ["ESlice", P(e), t_oe(e.lower), t_oe(e.upper), t_oe(e.step)]
+    if isinstance(e, ast.Starred):
+        return ["EStar", P(e), t_expr(e.value)]
+    if isinstance(e, ast.Lambda):
+        return ["ELambda", P(e), t_params(e.args), t_expr(e.body)]
     if isinstance(e, ast.Name):
         return ["EName", P(e), e.id]
     if isinstance(e, ast.Constant):
@@ -107,19 +123,19 @@ def t_params(a: ast.arguments) -> list:
         if x.annotation is not None or x.type_comment:
             raise Outside("annotated parameter")
         d = a.defaults[i - nd] if i >= nd else None
-        out.append(["param", P(x), P(x), x.arg, "KPosOnly" if i < len(a.posonlyargs) else "KPos", ["opt", t_expr(d)] if d is not None else ["opt"]])
+        out.append(["param", P(x), P(x), x.arg, "KPosOnly" if i < len(a.posonlyargs) else "KPos", t_oe(d)])
     if a.vararg is not None:
         if a.vararg.annotation is not None:
             raise Outside("annotated parameter")
-        out.append(["param", P(a.vararg), star_pos(a.vararg, 1), a.vararg.arg, "KStar", ["opt"]])
+        out.append(["param", P(a.vararg), star_pos(a.vararg, 1), a.vararg.arg, "KStar", ["O"]])
     for x, d in zip(a.kwonlyargs, a.kw_defaults):
         if x.annotation is not None:
             raise Outside("annotated parameter")
-        out.append(["param", P(x), P(x), x.arg, "KKwOnly", ["opt", t_expr(d)] if d is not None else ["opt"]])
+        out.append(["param", P(x), P(x), x.arg, "KKwOnly", t_oe(d)])
     if a.kwarg is not None:
         if a.kwarg.annotation is not None:
             raise Outside("annotated parameter")
-        out.append(["param", P(a.kwarg), star_pos(a.kwarg, 2), a.kwarg.arg, "KDStar", ["opt"]])
+        out.append(["param", P(a.kwarg), star_pos(a.kwarg, 2), a.kwarg.arg, "KDStar", ["O"]])
     for x in out:
         if not ascii_ok(x[3]):
             raise Outside("non-ascii name")
@@ -137,9 +153,65 @@ def t_stmt(s: ast.stmt) -> list:
         return ["SClass", P(s), s.name, [t_expr(b) for b in s.bases], [["kw", k.arg, t_expr(k.value)] for k in s.keywords],
                 [t_expr(d) for d in s.decorator_list], t_stmts(s.body)]
     if isinstance(s, ast.FunctionDef):
-        if s.decorator_list or s.returns is not None or s.type_comment or getattr(s, "type_params", None):
-            raise Outside("decorated / annotated / generic def")
-        return ["SDef", P(s), s.name, t_params(s.args), t_stmts(s.body)]
+        if s.returns is not None or s.type_comment or getattr(s, "type_params", None):
+            raise Outside("annotated / generic def")
+        dp = P(s)
+        if s.decorator_list:
+            d0 = s.decorator_list[0]
+            line = SRC_LINES[d0.lineno - 1]
+            i = d0.col_offset
+            while i > 0 and line[i - 1:i] in (b"(", b" ", b"\t"):
+                i -= 1
+            if line[i - 1:i] != b"@":
+                raise Outside("cannot locate decorator start")
+            while line[i:i + 1] in (b" ", b"\t"):
+                i += 1
+            dp = ["P", d0.lineno, i, d0.end_lineno, d0.end_col_offset]
+        return ["SDef", P(s), s.name, t_params(s.args), [t_expr(d) for d in s.decorator_list], dp, t_stmts(s.body)]
+    if isinstance(s, ast.AugAssign):
+        return ["SAugAssign", P(s), ["op", BINOPS[type(s.op)]], t_expr(s.target), t_expr(s.value)]
+    if isinstance(s, ast.Break):
+        return ["SBreak", P(s)]
+    if isinstance(s, ast.Continue):
+        return ["SContinue", P(s)]
+    if isinstance(s, (ast.Global, ast.Nonlocal)):
+        if not all(ascii_ok(n) for n in s.names):
+            raise Outside("non-ascii name")
+        return ["SGlobal" if isinstance(s, ast.Global) else "SNonlocal", P(s), [["str", n] for n in s.names]]
+    if isinstance(s, ast.Delete):
+        return ["SDel", P(s), [t_expr(t) for t in s.targets]]
+    if isinstance(s, ast.Assert):
+        return ["SAssert", P(s), t_expr(s.test), t_oe(s.msg)]
+    if isinstance(s, ast.Raise):
+        return ["SRaise", P(s), t_oe(s.exc), t_oe(s.cause)]
+    if isinstance(s, ast.Import):
+        return ["SImport", P(s), [["alias", a.name, a.asname] for a in s.names]]
+    if isinstance(s, ast.ImportFrom):
+        if len(s.names) == 1 and s.names[0].name == "*":
+            return ["SImportAll", P(s), s.level, s.module or ""]
+        return ["SImportFrom", P(s), s.level, s.module or "", [["alias", a.name, a.asname] for a in s.names]]
+    if isinstance(s, ast.With):
+        if s.type_comment:
+            raise Outside("type comment")
+        return ["SWith", P(s), [["witem", t_expr(i.context_expr), t_oe(i.optional_vars)] for i in s.items], t_stmts(s.body)]
+    if isinstance(s, ast.Try):
+        hs = []
+        for h in s.handlers:
+            nm = None
+            if h.name is not None:
+                if h.type is None or h.type.end_lineno != h.lineno:
+                    raise Outside("handler name on another line")
+                line = SRC_LINES[h.lineno - 1]
+                import re as _re
+                m = _re.match(rb"\s*\)*\s*as\s+", line[h.type.end_col_offset:])
+                if not m or not ascii_ok(h.name):
+                    raise Outside("cannot locate handler name")
+                c0 = h.type.end_col_offset + m.end()
+                if line[c0:c0 + len(h.name)] != h.name.encode():
+                    raise Outside("cannot locate handler name")
+                nm = [h.name, ["P", h.lineno, c0, h.lineno, c0 + len(h.name)]]
+            hs.append(["handler", P(h), t_oe(h.type), nm, t_stmts(h.body)])
+        return ["STry", P(s), t_stmts(s.body), hs, t_stmts(s.orelse), t_stmts(s.finalbody)]
     if isinstance(s, ast.Expr):
         return ["SExpr", P(s), t_expr(s.value)]
     if isinstance(s, ast.Assign):
@@ -147,7 +219,7 @@ def t_stmt(s: ast.stmt) -> list:
             raise Outside("type comment")
         return ["SAssign", P(s), [t_expr(t) for t in s.targets], t_expr(s.value)]
     if isinstance(s, ast.Return):
-        return ["SReturn", P(s), ["opt", t_expr(s.value)] if s.value is not None else ["opt"]]
+        return ["SReturn", P(s), t_oe(s.value)]
     if isinstance(s, ast.Pass):
         return ["SPass", P(s)]
     if isinstance(s, ast.While):
@@ -168,9 +240,24 @@ def t_stmts(l: list[ast.stmt]) -> list:
 # ------------------------------------------------------------------ rendering of real mypy trees
 
 def MP(n: Any) -> list:
+    if n.end_line is None and n.end_column is None:
+        return ["P", n.line, n.column, -1, -1]      # unset end: encoded as -1 -1 (Model.PN)
     def z(v: Any) -> Any:
         return ["none"] if v is None else v
     return ["P", n.line, n.column, z(n.end_line), z(n.end_column)]
+
+
+def m_oe(e: Any) -> list:
+    return ["opt"] if e is None else ["opt", m_expr(e)]
+
+
+def m_args(arguments: Any) -> list:
+    args = []
+    for a in arguments:
+        if a.type_annotation is not None or a.variable.type is not None:
+            raise Outside("annotated argument")
+        args.append(["MArg", MP(a), MP(a.variable), a.variable.name, ["kind", a.kind.name], m_oe(a.initializer), bool(a.pos_only)])
+    return args
 
 
 def m_expr(e: Any) -> list:
@@ -201,6 +288,22 @@ def m_expr(e: Any) -> list:
         return ["MTuple", MP(e), [m_expr(x) for x in e.items]]
     if t is N.ListExpr:
         return ["MList", MP(e), [m_expr(x) for x in e.items]]
+    if t is N.SetExpr:
+        return ["MSet", MP(e), [m_expr(x) for x in e.items]]
+    if t is N.DictExpr:
+        return ["MDict", MP(e), [["pair", m_oe(k), m_expr(v)] for k, v in e.items]]
+    if t is N.IndexExpr:
+        return ["MIndex", MP(e), m_expr(e.base), m_expr(e.index)]
+    if t is N.SliceExpr:
+        return ["MSlice", MP(e), m_oe(e.begin_index), m_oe(e.end_index), m_oe(e.stride)]
+    if t is N.StarExpr:
+        return ["MStar", MP(e), m_expr(e.expr)]
+    if t is N.LambdaExpr:
+        if e.type is not None:
+            raise Outside("typed lambda")
+        b = e.body
+        assert len(b.body) == 1 and type(b.body[0]) is N.ReturnStmt and not b.is_unreachable
+        return ["MLambda", MP(e), m_args(e.arguments), MP(b), MP(b.body[0]), m_expr(b.body[0].expr)]
     raise Outside("mypy node " + t.__name__)
 
 
@@ -222,16 +325,45 @@ def m_stmt(s: Any) -> list:
                 ["opt", m_expr(s.metaclass)] if s.metaclass is not None else ["opt"],
                 [["pair", k, m_expr(v)] for k, v in s.keywords.items()], [m_expr(d) for d in s.decorators]]
     if t is N.FuncDef:
-        if s.type is not None or s.unanalyzed_type is not None or s.is_coroutine or s.is_decorated or s.type_args:
-            raise Outside("typed / async / decorated FuncDef")
-        args = []
-        for a in s.arguments:
-            if a.type_annotation is not None or a.variable.type is not None:
-                raise Outside("annotated argument")
-            assert s.arg_names[len(args)] == (None if a.pos_only else a.variable.name) and a.kind == s.arg_kinds[len(args)]
-            args.append(["MArg", MP(a), MP(a.variable), a.variable.name, ["kind", a.kind.name],
-                         ["opt", m_expr(a.initializer)] if a.initializer is not None else ["opt"], bool(a.pos_only)])
-        return ["MFuncDef", MP(s), s.name, args, m_block(s.body)]
+        if s.type is not None or s.unanalyzed_type is not None or s.is_coroutine or s.type_args:
+            raise Outside("typed / async FuncDef")
+        for k, a in enumerate(s.arguments):
+            assert s.arg_names[k] == (None if a.pos_only else a.variable.name) and a.kind == s.arg_kinds[k]
+        return ["MFuncDef", MP(s), s.name, m_args(s.arguments), m_block(s.body)]
+    if t is N.Decorator:
+        assert s.func.is_decorated and s.var.line == s.func.line
+        return ["MDecorator", MP(s), [m_expr(d) for d in s.decorators], m_stmt(s.func)]
+    if t is N.OperatorAssignmentStmt:
+        return ["MOpAssign", MP(s), ["str", s.op], m_expr(s.lvalue), m_expr(s.rvalue)]
+    if t is N.BreakStmt:
+        return ["MBreak", MP(s)]
+    if t is N.ContinueStmt:
+        return ["MContinue", MP(s)]
+    if t is N.GlobalDecl:
+        return ["MGlobal", MP(s), [["str", n] for n in s.names]]
+    if t is N.NonlocalDecl:
+        return ["MNonlocal", MP(s), [["str", n] for n in s.names]]
+    if t is N.DelStmt:
+        return ["MDel", MP(s), m_expr(s.expr)]
+    if t is N.AssertStmt:
+        return ["MAssert", MP(s), m_expr(s.expr), m_oe(s.msg)]
+    if t is N.RaiseStmt:
+        return ["MRaise", MP(s), m_oe(s.expr), m_oe(s.from_expr)]
+    if t is N.Import:
+        return ["MImport", MP(s), [["pair", ["str", a], ["opt", ["str", b]] if b is not None else ["opt"]] for a, b in s.ids]]
+    if t is N.ImportFrom:
+        return ["MImportFrom", MP(s), s.id, s.relative, [["pair", ["str", a], ["opt", ["str", b]] if b is not None else ["opt"]] for a, b in s.names]]
+    if t is N.ImportAll:
+        return ["MImportAll", MP(s), s.id, s.relative]
+    if t is N.WithStmt:
+        if s.is_async or s.unanalyzed_type is not None:
+            raise Outside("async / typed with")
+        return ["MWith", MP(s), [m_expr(x) for x in s.expr], [m_oe(x) for x in s.target], m_block(s.body)]
+    if t is N.TryStmt:
+        if s.is_star:
+            raise Outside("except*")
+        return ["MTry", MP(s), m_block(s.body), [["opt", ["pair", ["str", v.name], MP(v)]] if v is not None else ["opt"] for v in s.vars],
+                [m_oe(x) for x in s.types], [m_block(b) for b in s.handlers], m_oblock(s.else_body), m_oblock(s.finally_body)]
     if t is N.ExpressionStmt:
         return ["MExprStmt", MP(s), m_expr(s.expr)]
     if t is N.AssignmentStmt:
@@ -239,7 +371,7 @@ def m_stmt(s: Any) -> list:
             raise Outside("annotated assignment")
         return ["MAssign", MP(s), [m_expr(x) for x in s.lvalues], m_expr(s.rvalue), bool(s.new_syntax)]
     if t is N.ReturnStmt:
-        return ["MReturn", MP(s), ["opt", m_expr(s.expr)] if s.expr is not None else ["opt"]]
+        return ["MReturn", MP(s), m_oe(s.expr)]
     if t is N.PassStmt:
         return ["MPass", MP(s)]
     if t is N.WhileStmt:
